@@ -97,7 +97,19 @@ GlobTab == <<
   [decl |-> "unsigned short g24[2][2] = {u\"ab\", u\"c\"};", name |-> "g24", size |-> 8,  align |-> 2],
   [decl |-> "unsigned g25[2][1] = {U\"a\", U\"b\"};",        name |-> "g25", size |-> 8,  align |-> 4],
   [decl |-> "struct { char c; unsigned w[2]; } g26 = {1, U\"ab\"};", name |-> "g26", size |-> 12, align |-> 4],
-  [decl |-> "unsigned short g27[3] = u\"ab\";",                name |-> "g27", size |-> 6,  align |-> 2] >>
+  [decl |-> "unsigned short g27[3] = u\"ab\";",                name |-> "g27", size |-> 6,  align |-> 2],
+  (* objects declared BEFORE their type is completed (tentative definitions emitted at the end of the unit), *)
+  (* over-aligned, static and thread-local objects                                                           *)
+  [decl |-> "struct T30 g30; struct T30 { long a; int b; };",   name |-> "g30", size |-> 16, align |-> 8],
+  [decl |-> "typedef struct T31 t31; t31 g31; struct T31 { double d; char c; };", name |-> "g31", size |-> 16, align |-> 8],
+  [decl |-> "union U32 g32; union U32 { int i; double d; };",   name |-> "g32", size |-> 8,  align |-> 8],
+  [decl |-> "int g33[]; int g33[3];",                           name |-> "g33", size |-> 12, align |-> 4],
+  [decl |-> "extern struct T34 g34; struct T34 { long a; short b; }; struct T34 g34;", name |-> "g34", size |-> 16, align |-> 8],
+  [decl |-> "_Alignas(32) char g35[3];",                        name |-> "g35", size |-> 3,  align |-> 32],
+  [decl |-> "static _Alignas(8) short g36;",                    name |-> "g36", size |-> 2,  align |-> 8],
+  [decl |-> "_Thread_local long g37 = 1;",                      name |-> "g37", size |-> 8,  align |-> 8],
+  [decl |-> "static struct T38 g38; struct T38 { int i; char c; };", name |-> "g38", size |-> 8, align |-> 4],
+  [decl |-> "typedef union U39 u39; u39 g39; u39 g39; union U39 { char c[5]; short h; };", name |-> "g39", size |-> 6, align |-> 2] >>
 
 (* functions with variably modified PARAMETERS (pointer to VLA, array parameter; 1 and 2 variable dimensions) whose  *)
 (* length expressions contain control flow (?:, &&, ||) - they are evaluated in the start block, which also receives *)
